@@ -172,6 +172,9 @@ class ClusterWatch:
         self.join: Optional[dict] = None          # {"c", "t0", "phase": notify|waiting|uncertain, "tw"}
         self.notifs: list[dict] = []
         self.passive: Optional[dict] = None       # {"cid", "leader", "since", "last_heard"}
+        self.was_passive = False
+        self.join_quiet = True
+        self.join_last_t = 0
         self.pending_breakup: Optional[dict] = None
         self.fired: set = set()
         self.fired_aspects: set = set()
@@ -262,6 +265,15 @@ class ClusterWatch:
                 self._expect("join-notification", t, vconst.TIME_CLUSTER_JOIN_NOTIFICATION,
                              lambda opc, c=c: bool(opc) and "clusterJoinInfo" in opc and opc["clusterJoinInfo"].get("clusterId") == c,
                              S.VRU_ACTIVE_STANDALONE, f"clusterJoinInfo(clusterId={c})")
+            elif ev["ok"] and prev.state is S.VRU_ACTIVE_STANDALONE and o.state is S.VRU_ACTIVE_STANDALONE and self.join is None and \
+                    self.join_quiet and \
+                    not any(e["what"] in ("cancelled-join-leave-notification", "failed-join-leave-notification") for e in self.notifs):
+                # stand-alone, no join procedure in progress (none started, or the last one completed / was cancelled and its
+                # notification is over): the state machine is consistent only if a new join can be initiated
+                self.violate("join-refused", "standalone/no-join-in-progress" + ("/after-membership" if self.was_passive else ""),
+                             f"initiate_join({ev['args'][0]}) returned {ev['res']!r} although the station is stand-alone and no join procedure is in progress")
+            else:
+                self.sim.probe("join-refused-legitimately")
         elif kind in ("cancel_join", "leave") and prev.state is S.VRU_ACTIVE_STANDALONE:
             j = self.join
             if j is not None and (j["phase"] == "notify" or (kind == "cancel_join" and j["phase"] == "waiting")):
@@ -318,6 +330,7 @@ class ClusterWatch:
                 self.passive = {"cid": o.cid, "leader": ev.get("f", {}).get("sid"), "since": t, "last_heard": t}
                 self.join = None
         if o.state is not S.VRU_PASSIVE and prev.state is S.VRU_PASSIVE:
+            self.was_passive = True
             if self.passive is not None and kind in ("update", "rx-breakup", "rx-cluster", "rx-plain", "rx-join", "rx-leave") \
                     and o.state is S.VRU_ACTIVE_STANDALONE:
                 # left on its own (leader lost / disbanded): a leave notification for that cluster is due
@@ -332,6 +345,16 @@ class ClusterWatch:
                     self.sim.probe("left-although-leader-heard-recently")
             self.passive = None
             self.pending_breakup = None
+        # ---------------- "no join procedure can be in progress any more" (for the join-refused rule): the sub-states only advance
+        #                  inside update(), so an update later than the longest notification after the last join activity is required
+        if kind in ("join", "cancel_join", "join_failed", "leave", "try_create", "breakup") or self.join is not None \
+                or (kind.startswith("rx-") and prev.state is not o.state):
+            self.join_last_t = t
+            self.join_quiet = False
+        elif kind == "role_off":
+            self.join_quiet = True
+        elif kind == "update" and t - self.join_last_t > int((vconst.TIME_CLUSTER_LEAVE_NOTIFICATION + 0.2) * 1e6):
+            self.join_quiet = True
         # ---------------- invariants (public API)
         self._invariants(ctx, o)
         self._notifications(ctx, kind, t, o)
